@@ -11,7 +11,8 @@ from harness.points import displacement, canon
 MODULE = 'Ndt.Props.C02Honest'
 THEOREMS = ['Ndt.info_consistent', 'Ndt.bestEstimate_err_nonneg', 'Ndt.wynnTable_err_nonneg', 'Ndt.tailStage_err_nonneg',
             'Ndt.final_step_is_generated_step', 'Ndt.richErrGo_ge_diff', 'Ndt.richErr_dominates_geometric',
-            'Ndt.chosenRow_valid', 'Ndt.bestEstimate_columnwise', 'Ndt.dea3_abserr_ge', 'Ndt.richErrMain_nonneg', 'Ndt.tailStage_honest_geometric']
+            'Ndt.chosenRow_valid', 'Ndt.bestEstimate_columnwise', 'Ndt.dea3_abserr_ge', 'Ndt.richErrMain_nonneg', 'Ndt.tailStage_honest_geometric',
+            'Ndt.argMinRow_skips_nan', 'Ndt.bestEstimate_err_not_nan']
 
 
 def run(ctx):
